@@ -146,3 +146,25 @@ def canon_output(out, labelled=None, ordered=None):
 def pkg_cost(out):
     c = guarded(out.cost)
     return INF if c == INF else c
+
+
+def mapping_names_by_clade(out, inst):
+    """Species mapping of an output expressed with the harness's node names, read through clades
+    (for inputs whose ancestral nodes are unnamed or share a name)."""
+    oname = {inst.O.clade(n): inst.O.name[n] for n in inst.O.nodes()}
+    sname = {inst.S.clade(n): inst.S.name[n] for n in inst.S.nodes()}
+    return {oname[frozenset(k.get_leaf_names())]: sname[frozenset(v.get_leaf_names())] for k, v in out.object_species.items()}
+
+
+def strip_ancestor_names(case):
+    """Same input with unnamed ancestral nodes in both trees (legal through the Python API)."""
+    from .plain import parse_newick
+
+    out = dict(case)
+    for key in ("object_tree", "species_tree"):
+        t = parse_newick(case[key])
+        for n in t.nodes():
+            if not t.is_leaf(n):
+                t.name[n] = ""
+        out[key] = t.to_newick()
+    return out
